@@ -18,6 +18,7 @@ def contents(big):
     import random
     rnd = random.Random(20)
     return [('empty', b''), ('ascii', b'hello world\n'), ('ascii-str', 'hello string\n'), ('utf8-str', 'grüße 世界 \U0001F600\n'), ('utf8-bytes', 'grüße 世界\n'.encode('utf-8')),
+            ('bom-str', '\ufefftext written by a Windows tool\n'), ('bom-bytes', b'\xef\xbb\xbfbytes with a byte-order mark'), ('nbsp-first', '\u00a0leading no-break space'),
             ('all-octets', bytes(range(256))), ('crlf', b'line one\r\nline two\r\n'), ('nul', b'\x00' * 33),
             ('big', bytes(rnd.getrandbits(8) for _ in range(big)))]
 
